@@ -370,7 +370,10 @@ fn parse_pi<'input>(s: &mut Stream<'input>, events: &mut impl XmlEvents<'input>)
     let start = s.pos();
     s.advance(2);
     let target = s.consume_name()?;
-    s.skip_spaces();
+    if !s.starts_with(b"?>") {
+        // The PI target must be separated from the PI content by a whitespace.
+        s.consume_spaces()?;
+    }
     let content = s.consume_chars(|s, c| !(c == '?' && s.starts_with(b"?>")))?;
     let content = if !content.is_empty() {
         Some(content)
